@@ -29,7 +29,7 @@ STAGES = ['stats', 'refm', 'qmark', 'mapping']
 
 
 def budget(tier):
-    return {'quick': 48, 'thorough': 640}[tier]
+    return {'quick': 80, 'thorough': 800}[tier]
 
 
 @st.composite
